@@ -362,6 +362,38 @@ func runC14(r *ev.Run) {
 				}
 				m.remove(id)
 				removals++
+				if rng.IntN(2) == 0 {
+					// update = remove + add of the same id, with or without a Flush in between; the new vector is
+					// usually far from the old one so that it belongs to another cluster / other codewords
+					if rng.IntN(3) == 0 {
+						hist = append(hist, histOp{Op: "flush"})
+						s.idx.Flush()
+						m.flush()
+						flushes++
+					}
+					v := vg.fresh()
+					for j := range v {
+						v[j] = -3*m.raw[id][j] + v[j]
+					}
+					if zero := func() bool {
+						for _, x := range v {
+							if x != 0 {
+								return false
+							}
+						}
+						return true
+					}(); zero {
+						v[0] = 1
+					}
+					hist = append(hist, histOp{Op: "re-add", ID: id, Vec: cloneF32(v)})
+					if err := s.idx.Add(*comet.NewVectorNodeWithID(id, cloneF32(v))); err != nil {
+						rep(kind+".readd-error", err.Error())
+						return
+					}
+					m.add(id, v)
+					r.Count("ops:re-add-removed-id", 1)
+					checkCodes()
+				}
 			default:
 				hist = append(hist, histOp{Op: "flush"})
 				if err := s.idx.Flush(); err != nil {
